@@ -32,8 +32,8 @@ W(s) == s[RandomElement(1..Len(s))]           \* weighted choice: repeat an elem
 OrdSubs == {s \in UNION {[1..n -> T5] : n \in 0..3} : \A i, j \in DOMAIN s : i # j => s[i] # s[j]}
 ROrdSubs == {s \in UNION {[1..n -> {"r1", "r10", "r2", "xr2"}] : n \in 0..3} : \A i, j \in DOMAIN s : i # j => s[i] # s[j]}
 Styles == <<"alt", "group", "group", "class", "class">>
-ImgW == <<"", "", "", "A", "A", "B", "C", "X", "X", "Y", "Xa", "H", "H", "D">>
-TgtW == <<"", "", "", "same", "same", "same", "same", "A", "B", "C", "X", "Xa", "H", "D">>
+ImgW == <<"", "", "", "A", "A", "B", "C", "X", "X", "Y", "Xa", "H", "H", "D", "A5">>
+TgtW == <<"", "", "", "same", "same", "same", "same", "A", "B", "C", "X", "Xa", "H", "D", "A5">>
 T5s == <<"v1", "v10", "xv2", "v2", "latest">>
 Grid == <<"r1", "r2", "r10", "xr2">>
 
@@ -147,6 +147,11 @@ GNext == \/ GDraw \/ GSetup \/ GEnd
          \/ /\ (StartRun \/ EnvMove \/ Idle \/ \E k \in DOMAIN proc : Step(k))
             /\ UNCHANGED <<draws, drawn, scn, hist>>
 GSpec == GInit /\ [][GNext]_gvars
+\* a registry that omits Docker-Content-Digest leaves a client no way to learn that it knows a
+\* manifest by a sha512 digest (the client then computes sha256): the two are not combined
+UsesA5 == \/ \E x \in scn.src \cup scn.tgt : x[3] = "A5"
+          \/ \E i \in DOMAIN scn.plan : scn.plan[i].img = "A5"
+EnvOf == IF UsesA5 THEN [draws.env EXCEPT !.nodig = ""] ELSE draws.env
 Emit == Finished => PrintT(<<"SCN", ToJson([conf |-> scn.conf, src |-> scn.src, tgt |-> scn.tgt, steps |-> scn.plan, pred |-> hist,
-                                                env |-> draws.env])>>)
+                                                env |-> EnvOf])>>)
 =============================================================================
